@@ -20,7 +20,11 @@ def term_of(eng, v):
     if isinstance(v, VFloat):
         return v.t
     if isinstance(v, VNone):
-        return z3.IntVal(-1)
+        return z3.IntVal(-(10**9))
+    if isinstance(v, VStr):
+        return z3.IntVal(intern_str(v.s))
+    if isinstance(v, VStrSym):
+        return v.t
     raise Unsupported("argument %r of an uninterpreted function" % (v,))
 
 
@@ -41,7 +45,7 @@ class Uninterp:
 
     def apply(self, eng, args, kwargs=None):
         ts = [term_of(eng, a) for a in args]
-        if isinstance(self.ret, TInt):
+        if isinstance(self.ret, (TInt, TStr)):
             rs = z3.IntSort()
         elif isinstance(self.ret, TBool):
             rs = z3.BoolSort()
@@ -53,7 +57,9 @@ class Uninterp:
             f = z3.Function(self.name, *([t.sort() for t in ts] + [rs]))
             _FUNCS[key] = f
         r = f(*ts)
-        if isinstance(self.ret, TInt):
+        if isinstance(self.ret, TStr):
+            out = VStrSym(r)
+        elif isinstance(self.ret, TInt):
             out = VInt(r, self.ret.np)
             if self.ret.lo is not None:
                 eng.assume(r >= self.ret.lo)
@@ -71,16 +77,18 @@ class Uninterp:
 
 
 class SpecFn:
-    """Opaque spec function over integers: an application is an uninterpreted-function term plus its definitional
-    equation (the body, symbolically evaluated once per distinct argument tuple). Proofs that only need congruence
-    (code composes the same reference steps as the spec) never look inside; range facts still follow from the body.
-    Natively it is just the Python function."""
+    """Opaque spec function: an application is an uninterpreted-function term plus its definitional equation (the body,
+    symbolically evaluated once per distinct argument tuple). Proofs that only need congruence (code composes the same
+    reference steps as the spec) never look inside; range facts still follow from the body. Recursive spec functions are
+    unfolded `unfold` levels per application (default 1). Natively it is just the Python function."""
 
-    def __init__(self, fn):
+    def __init__(self, fn, ret=None, unfold=1):
         self.fn = fn
         self.__name__ = fn.__name__
         self.__doc__ = fn.__doc__
-        self.uf = None
+        self.ret = ret
+        self.unfold = unfold
+        self.ufs = {}
 
     def __call__(self, *args, **kw):
         return self.fn(*args, **kw)
@@ -88,29 +96,42 @@ class SpecFn:
     def apply(self, eng, args, kwargs):
         if kwargs:
             return eng.call_function(self.fn, list(args), kwargs, force_inline=True)
-        ivs = []
-        for a in args:
-            iv = eng.as_int(eng.force(a))
-            if iv is None:
-                return eng.call_function(self.fn, list(args), {}, force_inline=True)
-            ivs.append(iv)
-        if all(z3.is_int_value(z3.simplify(iv.t)) for iv in ivs):
+        try:
+            ts = [z3.simplify(term_of(eng, a)) for a in args]
+        except Unsupported:
             return eng.call_function(self.fn, list(args), {}, force_inline=True)
-        if self.uf is None or self.uf.arity() != len(ivs):
-            self.uf = z3.Function("spec$" + self.__name__, *([z3.IntSort()] * (len(ivs) + 1)))
-        ts = [z3.simplify(iv.t) for iv in ivs]
-        app = self.uf(*ts)
-        key = ("specfn", self.__name__, tuple(t.get_id() for t in ts))
-        hit = eng.memo.get(key)
-        if hit is None or not all(x.eq(y) for x, y in zip(hit[0], ts)):
-            eng.memo[key] = (ts, app)
-            body = eng.call_function(self.fn, [VInt(t) for t in ts], {}, force_inline=True)
-            bi = eng.as_int(eng.force(body))
-            if bi is None:
-                raise Unsupported("opaque spec function %s must return an int" % self.__name__)
-            eng.assume(app == bi.t)
-        return VInt(app)
+        if self.ret is None and all(z3.is_int_value(t) for t in ts) and all(isinstance(eng.force(a), VInt) for a in args):
+            return eng.call_function(self.fn, list(args), {}, force_inline=True)
+        ret = self.ret or PyInt
+        rs = z3.BoolSort() if isinstance(ret, TBool) else z3.IntSort()
+        key = tuple(str(t.sort()) for t in ts)
+        uf = self.ufs.get(key)
+        if uf is None:
+            uf = z3.Function("spec$" + self.__name__, *([t.sort() for t in ts] + [rs]))
+            self.ufs[key] = uf
+        app = uf(*ts)
+        out = VBool(app) if isinstance(ret, TBool) else (VStrSym(app) if isinstance(ret, TStr) else VInt(app))
+        depth = getattr(eng, "_spec_depth", {})
+        eng._spec_depth = depth
+        d = depth.get(self.__name__, 0)
+        mkey = ("specfn", self.__name__, tuple(t.get_id() for t in ts))
+        hit = eng.memo.get(mkey)
+        if d < self.unfold and (hit is None or not all(x.eq(y) for x, y in zip(hit[0], ts))):
+            eng.memo[mkey] = (ts, app)
+            depth[self.__name__] = d + 1
+            try:
+                body = eng.call_function(self.fn, list(args), {}, force_inline=True)
+            finally:
+                depth[self.__name__] = d
+            body = eng.force(body)
+            if isinstance(ret, TBool):
+                eng.assume(app == eng.truth(body))
+            else:
+                eng.assume(app == term_of(eng, body))
+        return out
 
 
-def spec_fn(fn):
+def spec_fn(fn=None, **kw):
+    if fn is None:
+        return lambda f: SpecFn(f, **kw)
     return SpecFn(fn)
